@@ -593,7 +593,7 @@ backtrack:
 				/* Check for end of string. */
 				if (len < 0)
 				{
-					if (next_c == HAWK_T('\0'))
+					if (next_c_start == HAWK_T('\0'))
 					{
 						DPRINT(("end of string.\n"));
 						break;
@@ -601,7 +601,7 @@ backtrack:
 				}
 				else
 				{
-					if (pos >= len)
+					if (pos_start >= len)
 					{
 						DPRINT(("end of string.\n"));
 						break;
